@@ -81,6 +81,12 @@ var rawTomlBodies = []string{
 	"[Scenario]\nName = \"x\"\n[Model]\nType = \"CatchmentModel\"\n[Model.Parameters]\nDataSourcePath = \"ds/broken-emptymeta/bModel.csv\"",
 	"[Scenario]\nName = \"x\"\n[Model]\nType = \"DumbModel\"", "[Scenario]\nName = \"x\"\n[Model]\nType = \"NullModel\"", "[Scenario]\nName = \"x\"\n[Model]\nType = \"MultiObjectiveDumbModel\"",
 	"Name = \"x\"", "[Scenario]\nName = \"x\"\n[Scenario]\nName = \"y\"", "\xff\xfe", "\x00", "{\"json\":true}", "a,b\n1,2\n",
+	// the rest of the TOML grammar, complete and cut short (BurntSushi/toml v0.3.1 reports some of these by PANICKING with an
+	// internal "BUG: ..." text instead of returning an error: an inline table left open before a comment)
+	"x={ a = 1 # c", "x = { a = 1 # c\n", "[Scenario]\nName = \"x\"\nx={ a = 1 # c", "[Scenario]\nName = \"x\"\n[Model]\nType = \"CatchmentModel\"\n[Model.Parameters]\nx = { a = 1 # c",
+	"x = {", "x = { a = 1", "x = { a = 1,", "x = { a = 1 }", "x = { a = { b = { c = 1 # d", "x = [1, 2", "x = [1, # c", "x = [1, # c\n 2]", "x = [[1], [", "x = \"\"\"abc", "x = '''abc", "x = \"a\\",
+	"x = 1979-05-27T07:32:00Z", "x = 1979-05-27T07:32:0", "a.b.c = 1", "[[Scenario]]\nName = \"x\"", "[Scenario]\nName = \"\\uD800\"", "x = 1_000", "x = +inf", "x = 0x", "x = 1e", "x = .5",
+	"[a.b]\n[a]\n[a.b]", "x = 1\nx = 2", "[Scenario\nName = \"x\"", "[Scenario]]\n", "[]", "[.]", "= 1", "x = # c", "x = { # c\n a = 1 }", "x = {a=1}}", "[Scenario]\nName = { first = \"x\" # c",
 }
 
 func mutateBytes(r *Rng, b []byte) []byte {
